@@ -304,8 +304,11 @@ func (c *cmafIngester) start(ctx context.Context) {
 	c.state = ingesterStateRunning
 
 	refRep := c.asset.refRep
-	lastNr := findLastSegNr(c.cfg, c.asset, nowMS, refRep)
-	nextSegNr := lastNr + 1
+	lastNr := findLastSegNr(c.cfg, c.asset, nowMS, refRep) // Counted from 0. Less than 0 if no segment has ended yet
+	if lastNr < -1 {
+		lastNr = -1
+	}
+	nextSegNr := lastNr + 1 + c.cfg.getStartNr() // Segment number as in the URLs and in mfhd
 	lastSegNrToSend := -1
 
 	if c.nrSegsToSend != nil {
